@@ -38,7 +38,7 @@ MIN_HITS = {
         'mon:mean': 1500, 'mon:zero': 100, 'mon:nan': 1500, 'mon:hull': 500, 'mon:order': 500, 'mon:generator': 900,
         'mon:donation': 5000, 'mon:readonly': 300, 'mon:structure': 1500, 'mon:sum': 500, 'mon:aggstate': 300,
         'mon:clipnorm': 300, 'mon:clipdir': 300, 'mon:clipident': 100, 'jax-leaves': 100, 'np-leaves': 50,
-        'single-client': 20, 'clip-below': 50, 'clip-zero-tree': 5, 'hook:tree_mean': 2,
+        'single-client': 20, 'clip-below': 50, 'clip-zero-tree': 5, 'hook:tree_mean': 2, 'class:many-trees': 15,
         'hook:tree_sum': 1, 'hook:tree_clip_by_global_norm': 1,
     },
     'thorough': {
@@ -358,6 +358,10 @@ def mean_case(ctx, mods, pool, rng):
   si = int(rng.randint(len(pool)))
   template = pool[si]
   n = int(rng.choice([1, 1, 2, 2, 3, 3, 4, 5, 6, 7]))
+  if rng.rand() < 0.05:
+    # many clients: counts around powers of two (any internal chunking of the running sum) up to a few hundred
+    n = int(rng.choice([31, 33, 63, 64, 65, 66, 127, 129, 130, 200, 257, 513]))
+    ctx.count('class:many-trees')
   mag = MAG_CLASSES[rng.randint(len(MAG_CLASSES))]
   wclass = WEIGHT_CLASSES[rng.randint(len(WEIGHT_CLASSES))]
   wtype = WEIGHT_TYPES[rng.randint(len(WEIGHT_TYPES))]
